@@ -38,14 +38,16 @@ func canBind(kind string, port int) bool {
 	l, err := net.Listen("tcp", fmt.Sprintf("127.0.0.1:%d", port))
 	if err != nil {
 		// a connection of the closed listener that is in TIME_WAIT (the listener had no SO_REUSEADDR) also refuses the
-		// bind: that is no open socket of the proxy.  Decide by the kernel's socket table: is anything LISTENing there?
-		return !tcpListening(port)
+		// bind: that is no open socket of the proxy. Only when the kernel's socket table shows such a remnant on this
+		// port is the refusal put down to it; otherwise a listening socket was there when Close returned.
+		return tcpRemnant(port)
 	}
 	l.Close()
 	return true
 }
 
-func tcpListening(port int) bool {
+// tcpRemnant: is there a socket on this local port that is neither listening nor established (TIME_WAIT, FIN_WAIT, ...)?
+func tcpRemnant(port int) bool {
 	for _, f := range []string{"/proc/net/tcp", "/proc/net/tcp6"} {
 		b, err := os.ReadFile(f)
 		if err != nil {
@@ -56,7 +58,7 @@ func tcpListening(port int) bool {
 			if len(fs) < 4 {
 				continue
 			}
-			if strings.HasSuffix(fs[1], fmt.Sprintf(":%04X", port)) && fs[3] == "0A" {
+			if strings.HasSuffix(fs[1], fmt.Sprintf(":%04X", port)) && fs[3] != "0A" && fs[3] != "01" {
 				return true
 			}
 		}
@@ -185,81 +187,90 @@ func modeC18() {
 		time.Sleep(250 * time.Millisecond)
 		tr.Emit("boot18", "kind", kind, "pos", 0, "started", started, "panicked", panicked, "rebound", sockFDs() <= base, "err", es, "fds", sockFDs(), "basefds", base)
 	}
-	// whole router: all listener kinds, a few queries, then close
-	base := sockFDs()
-	all18 := append(append([]string{}, allListeners...), "udpth") // + a UDP listener with three threads (sockets)
-	in, err := newInst("c18-all", instOpts{listeners: all18, upstreams: map[string]string{"u1": "udp", "u2": "tcp", "u3": "tcp+pipeline"},
-		rules: []ruleSpec{{Set: "", Forward: "u1"}}, cacheMem: 1 << 20, metrics: true})
-	if err != nil {
-		panic(err)
-	}
-	for _, lst := range all18 {
-		in.send(lst, "", mkq(uniq()+".r0t60d0.z1.test."), 3*time.Second, nil)
-	}
-	// queries in flight on every listener when Close is called: the upstream never answers them
-	var inflMu sync.Mutex
-	var inflWG sync.WaitGroup
-	inflLate := []string{}
-	var t0 time.Time
-	for _, lst := range all18 {
-		lst := lst
-		inflWG.Add(1)
-		go func() {
-			defer inflWG.Done()
-			w := mkq(uniq() + ".r0t60d0fS.z1.test.").wire()
-			wait := 9 * time.Second
-			dgram := lst == "udp" || lst == "udpth" // nothing tells a datagram client that its query is over
-			if dgram {
-				wait = 2 * time.Second
-			}
-			in.roundTrip(lst, "", w, wait, nil)
-			inflMu.Lock()
-			if !dgram && !t0.IsZero() && time.Since(t0) > 3*time.Second {
-				inflLate = append(inflLate, lst)
-			}
-			inflMu.Unlock()
-		}()
-	}
-	time.Sleep(500 * time.Millisecond)
-	inflMu.Lock()
-	t0 = time.Now()
-	inflMu.Unlock()
-	cerr := in.vr.Close()
-	dur := int(time.Since(t0) / time.Millisecond)
-	inflWG.Wait()
-	// no listening socket is left when Close has returned: every address can be bound again at once
-	nowBound := []string{}
-	for _, lst := range append([]string{"metrics"}, all18...) {
-		if !canBind(lst, in.ports[lst]) {
-			nowBound = append(nowBound, lst)
+	// whole router: all listener kinds, a few queries, then close - once with nothing going on (what Close leaves
+	// behind at the very moment it returns), once with a query in flight on every listener
+	whole := func(inflight bool) {
+		base := sockFDs()
+		all18 := append(append([]string{}, allListeners...), "udpth") // + a UDP listener with three threads (sockets)
+		in, err := newInst(map[bool]string{false: "c18-all", true: "c18-busy"}[inflight], instOpts{listeners: all18, upstreams: map[string]string{"u1": "udp", "u2": "tcp", "u3": "tcp+pipeline"},
+			rules: []ruleSpec{{Set: "", Forward: "u1"}}, cacheMem: 1 << 20, metrics: true})
+		if err != nil {
+			panic(err)
 		}
-	}
-	cerr2 := in.vr.Close() // idempotent
-	in.vr = nil
-	for _, fu := range in.ups {
-		fu.close()
-	}
-	time.Sleep(600 * time.Millisecond)
-	rebound := true
-	notRebound := []string{}
-	for _, lst := range append([]string{"metrics"}, all18...) {
-		if !canBind(lst, in.ports[lst]) {
-			rebound = false
-			notRebound = append(notRebound, lst)
+		for _, lst := range all18 {
+			in.send(lst, "", mkq(uniq()+".r0t60d0.z1.test."), 3*time.Second, nil)
 		}
+		// queries in flight on every listener when Close is called: the upstream never answers them
+		var inflMu sync.Mutex
+		var inflWG sync.WaitGroup
+		inflLate := []string{}
+		var t0 time.Time
+		for _, lst := range all18 {
+			if !inflight {
+				break
+			}
+			lst := lst
+			inflWG.Add(1)
+			go func() {
+				defer inflWG.Done()
+				w := mkq(uniq() + ".r0t60d0fS.z1.test.").wire()
+				wait := 9 * time.Second
+				dgram := lst == "udp" || lst == "udpth" // nothing tells a datagram client that its query is over
+				if dgram {
+					wait = 2 * time.Second
+				}
+				in.roundTrip(lst, "", w, wait, nil)
+				inflMu.Lock()
+				if !dgram && !t0.IsZero() && time.Since(t0) > 3*time.Second {
+					inflLate = append(inflLate, lst)
+				}
+				inflMu.Unlock()
+			}()
+		}
+		time.Sleep(500 * time.Millisecond)
+		inflMu.Lock()
+		t0 = time.Now()
+		inflMu.Unlock()
+		cerr := in.vr.Close()
+		dur := int(time.Since(t0) / time.Millisecond)
+		// no listening socket is left when Close has returned: every address can be bound again at once
+		nowBound := []string{}
+		for _, lst := range append([]string{"metrics"}, all18...) {
+			if !canBind(lst, in.ports[lst]) {
+				nowBound = append(nowBound, lst)
+			}
+		}
+		inflWG.Wait()
+		cerr2 := in.vr.Close() // idempotent
+		in.vr = nil
+		for _, fu := range in.ups {
+			fu.close()
+		}
+		time.Sleep(600 * time.Millisecond)
+		rebound := true
+		notRebound := []string{}
+		for _, lst := range append([]string{"metrics"}, all18...) {
+			if !canBind(lst, in.ports[lst]) {
+				rebound = false
+				notRebound = append(notRebound, lst)
+			}
+		}
+		ps := ""
+		if cerr != nil {
+			ps = cerr.Error()
+		}
+		if cerr2 != nil {
+			ps += " / second close: " + cerr2.Error()
+		}
+		// the instance's own trace file and the fake upstream sockets are closed by now
+		in.tr.Close()
+		instMu.Lock()
+		insts = nil
+		instMu.Unlock()
+		time.Sleep(100 * time.Millisecond)
+		tr.Emit("rclose", "dur", dur, "panic", ps, "rebound", rebound, "stillbound", notRebound, "boundatreturn", nowBound, "infllate", inflLate, "fds", sockFDs(), "basefds", base)
 	}
-	ps := ""
-	if cerr != nil {
-		ps = cerr.Error()
-	}
-	if cerr2 != nil {
-		ps += " / second close: " + cerr2.Error()
-	}
-	// the instance's own trace file and the fake upstream sockets are closed by now
-	in.tr.Close()
-	instMu.Lock()
-	insts = nil
-	instMu.Unlock()
-	time.Sleep(100 * time.Millisecond)
-	tr.Emit("rclose", "dur", dur, "panic", ps, "rebound", rebound, "stillbound", notRebound, "boundatreturn", nowBound, "infllate", inflLate, "fds", sockFDs(), "basefds", base)
+	whole(false)
+	time.Sleep(300 * time.Millisecond)
+	whole(true)
 }
